@@ -19,8 +19,8 @@ import (
 type popCfg struct {
 	r        *rng.R
 	s        *schema.Schema
-	fill     int  // 0 = only required, 1 = random subset, 2 = everything
-	textSafe bool // only strings/dates representable in XML and JSON
+	fill     int // 0 = only required, 1 = random subset, 2 = everything
+	textMode int // 0: arbitrary strings; 1: JSON-representable (valid UTF-8); 2: XML-representable
 	depth    int
 	// respectGating: populate a version-gated field only when the header's version (ver) is in range,
 	// i.e. generate messages that are well-formed at their own protocol version.
@@ -92,10 +92,10 @@ func (p *popCfg) genString() string {
 		case 1:
 			rs = append(rs, rng.Pick(r, []rune{'<', '>', '&', '"', '\'', '\\', '/', ' ', 'é', 'ß', '€', '漢', '😀'}))
 		case 2:
-			if !p.textSafe {
+			if p.textMode != 2 {
 				rs = append(rs, rune(r.Intn(0x20))) // control characters
 			} else {
-				rs = append(rs, 'x')
+				rs = append(rs, rng.Pick(r, []rune{'\t', '\n', '\r', 'x'}))
 			}
 		default:
 			rs = append(rs, rune('a'+r.Intn(26)))
@@ -224,7 +224,7 @@ func (p *popCfg) populate(v reflect.Value) {
 		v.Set(reflect.ValueOf(*tree.GenBig(r, 300)))
 		return
 	case tValue:
-		v.Set(reflect.ValueOf(toValue(tree.Gen(r, tree.GenOpts{MaxDepth: 2, MaxChildren: 3, MaxData: 12, MaxBigBits: 100}, 1))))
+		v.Set(reflect.ValueOf(toValue(tree.Gen(r, tree.GenOpts{MaxDepth: 2, MaxChildren: 3, MaxData: 12, MaxBigBits: 100, TextMode: p.textMode}, 1))))
 		return
 	case tTStruct:
 		v.Set(reflect.ValueOf(ttlv.Struct(p.genTTLVStruct())))
@@ -235,13 +235,15 @@ func (p *popCfg) populate(v reflect.Value) {
 		return
 	}
 	if ttlv.VerifIsBitmask(t) {
-		switch r.Intn(4) {
+		switch r.Intn(6) {
 		case 0:
-			v.SetInt(int64(int32(1) << uint(r.Intn(31))))
+			v.SetInt(int64(int32(1) << uint(r.Intn(32)))) // single flag, bit 31 included
 		case 1:
 			v.SetInt(int64(r.Intn(0x100000)))
+		case 2:
+			v.SetInt(int64(rng.Pick(r, []int32{0, -1, -2147483648, 0x7FFFFFFF, 1, 0x000FFFFF}))) // zero, all bits, high bit
 		default:
-			v.SetInt(int64(int32(r.U64()) & 0x7FFFFFFF))
+			v.SetInt(int64(int32(r.U64()))) // any 32-bit pattern, unnamed bits included
 		}
 		return
 	}
@@ -371,7 +373,7 @@ func (p *popCfg) genTTLVStruct() []ttlv.Value {
 	n := p.r.Intn(4)
 	var out []ttlv.Value
 	for i := 0; i < n; i++ {
-		out = append(out, toValue(tree.Gen(p.r, tree.GenOpts{MaxDepth: 2, MaxChildren: 3, MaxData: 12, MaxBigBits: 100}, 1)))
+		out = append(out, toValue(tree.Gen(p.r, tree.GenOpts{MaxDepth: 2, MaxChildren: 3, MaxData: 12, MaxBigBits: 100, TextMode: p.textMode}, 1)))
 	}
 	return out
 }
@@ -455,12 +457,12 @@ func (p *popCfg) popAttribute(x *kmip.Attribute) {
 	switch {
 	case r.Chance(1, 8): // custom attribute: any TTLV value
 		x.AttributeName = kmip.AttributeName(rng.Pick(r, []string{"x-", "y-"}) + p.genString())
-		av := toValue(tree.Gen(r, tree.GenOpts{MaxDepth: 2, MaxChildren: 3, MaxData: 12, MaxBigBits: 100}, 1))
+		av := toValue(tree.Gen(r, tree.GenOpts{MaxDepth: 2, MaxChildren: 3, MaxData: 12, MaxBigBits: 100, TextMode: p.textMode}, 1))
 		av.Tag = kmip.TagAttributeValue // a generic value travels under the Attribute Value tag
 		x.AttributeValue = av
 	case r.Chance(1, 12): // name unknown to the library
 		x.AttributeName = kmip.AttributeName("Vendor " + p.genString())
-		av := toValue(tree.Gen(r, tree.GenOpts{MaxDepth: 2, MaxChildren: 3, MaxData: 12, MaxBigBits: 100}, 1))
+		av := toValue(tree.Gen(r, tree.GenOpts{MaxDepth: 2, MaxChildren: 3, MaxData: 12, MaxBigBits: 100, TextMode: p.textMode}, 1))
 		av.Tag = kmip.TagAttributeValue
 		x.AttributeValue = av
 	default:
